@@ -20,7 +20,7 @@ EXPLANATION = (
     "matcher's constructor evaluated with default and custom prefixes / value separator; the compiled tag pattern (constant "
     "folded) applied to ~60 concrete tags reads exactly PREFIX.with_CATEGORY<sep>VALUE tags as active tags.")
 NOT_DECIDED = ("the comparison semantics of user-supplied compare functions; tag texts beyond the sampled universe of A9")
-TECHNIQUE = "static analysis: exhaustive abstract evaluation of the active-tag decision code over small token universes (truth tables), provider-class exploration for the unknown-category path, effect rule on lazy values"
+TECHNIQUE = "static analysis: exhaustive abstract evaluation of the active-tag decision code over small token universes (truth tables), provider-class exploration for the unknown-category path, effect rule on lazy values; static constant propagation of the string-level glue (the source interpreted on enumerated literal inputs, stdlib calls folded) against oracles written in the rule"
 
 
 def run(chk, ix, tier):
